@@ -124,6 +124,7 @@ pub struct Ctx {
     pub level: String,
     pub verif_dir: PathBuf,
     replay: Option<(String, Value)>,
+    replay_path: String,
     regress: Vec<(String, String, Value)>, // (path, sub, case)
     known: Vec<KnownEntry>,
     acc: Mutex<Acc>,
@@ -194,6 +195,7 @@ impl Ctx {
             level: level.to_string(),
             verif_dir,
             replay: None,
+            replay_path: String::new(),
             regress,
             known,
             acc: Mutex::new(Acc::default()),
@@ -208,8 +210,9 @@ impl Ctx {
         }
     }
 
-    pub fn set_replay(&mut self, sub: String, case: Value) {
+    pub fn set_replay(&mut self, sub: String, case: Value, path: String) {
         self.replay = Some((sub, case));
+        self.replay_path = path;
         self.regress.clear();
     }
     pub fn is_replay(&self) -> bool {
@@ -259,6 +262,15 @@ impl Ctx {
             }
         }
         out
+    }
+
+    /// Keys of the known findings recorded for the given properties.
+    pub fn known_keys_for(&self, props: &[&str]) -> Vec<String> {
+        self.known
+            .iter()
+            .filter(|e| e.status == "known" && props.contains(&e.property.as_str()))
+            .map(|e| e.key.clone())
+            .collect()
     }
 
     fn is_known(&self, key: &str) -> Option<&KnownEntry> {
@@ -367,7 +379,7 @@ impl Ctx {
                         let v = test(&c);
                         let mut acc = Acc::default();
                         if let Some(f) = self.account(&mut acc, sub, &c, &v) {
-                            self.record_violation(sub, &c, &f, Some("<replayed>"));
+                            self.record_violation(sub, &c, &f, Some(&self.replay_path));
                         } else {
                             println!("replay: sub={} passed ({:?})", sub, v.map(|i| i.class));
                         }
